@@ -286,7 +286,7 @@ pub mod nix { pub mod unistd {
         #[verifier::external_body] pub fn current() -> Uid { unimplemented!() }
         #[verifier::external_body] pub fn is_root(self) -> (r: bool) ensures r == (self.raw == 0) { unimplemented!() }
     }
-    pub struct User { pub uid: Uid }
+    pub struct User { pub uid: Uid, pub gid: Gid }   // (gid: the primary group of the user, whatever it is)
     pub struct Group { pub gid: Gid }
     pub uninterp spec fn user_db(name: Seq<char>) -> Option<u32>;
     pub uninterp spec fn group_db(name: Seq<char>) -> Option<u32>;
@@ -326,8 +326,33 @@ pub mod nix { pub mod unistd {
             final(w).fs.files == old(w).fs.files, final(w).fs.modes == old(w).fs.modes,
             final(w).fs.events == old(w).fs.events.push(FsEvent::Chown { path: p@, uid: raw_uid(uid), gid: raw_gid(gid) }),
     { unimplemented!() }
+    // fchownat(None, path, uid, gid, flags): chown relative to the working directory; with AT_SYMLINK_NOFOLLOW a symbolic link is
+    // not followed (the link changes owner, the file it names does not)
+    #[verifier::external_body]
+    pub fn fchownat(dirfd: Option<i32>, p: &PathBuf, uid: Option<Uid>, gid: Option<Gid>, flags: crate::nix::fcntl::AtFlags, Tracked(w): Tracked<&mut World>) -> (r: Result<(), NixError>)
+        requires dirfd is None,
+        ensures
+            final(w).clock == old(w).clock, final(w).admissions == old(w).admissions, final(w).net == old(w).net,
+            final(w).fs.files == old(w).fs.files, final(w).fs.modes == old(w).fs.modes,
+            final(w).fs.events == old(w).fs.events.push(if flags.nofollow { FsEvent::Lchown { path: p@, uid: raw_uid(uid), gid: raw_gid(gid) } }
+                                                        else { FsEvent::Chown { path: p@, uid: raw_uid(uid), gid: raw_gid(gid) } }),
+    { unimplemented!() }
     }
-}}
+}
+pub mod fcntl {
+    use vstd::prelude::*;
+    verus! {
+    #[derive(Clone, Copy)]
+    pub struct AtFlags { pub nofollow: bool, pub other: u8 }
+    impl AtFlags {
+        pub const AT_SYMLINK_NOFOLLOW: AtFlags = AtFlags { nofollow: true, other: 0 };
+        pub const AT_SYMLINK_FOLLOW: AtFlags = AtFlags { nofollow: false, other: 1 };
+        pub const AT_EMPTY_PATH: AtFlags = AtFlags { nofollow: false, other: 2 };
+        #[verifier::external_body] pub fn empty() -> (r: AtFlags) ensures r == (AtFlags { nofollow: false, other: 0 }) { unimplemented!() }
+    }
+    }
+}
+}
 pub mod vparse {
     use vstd::prelude::*;
     verus! {
